@@ -47,7 +47,8 @@ const FAILING: [&str; 4] = [
     ": k \"<9>\" print 0 get \"<8>\" print ; [ ] k \"<8>\" print",
     "3 0 do I 1 == if \"<9>\" print 1 0 / \"<8>\" print then loop \"<8>\" print",
 ];
-const PROBES: [&str; 18] = [
+const PROBES: [&str; 19] = [
+    ": ph h ; ph ph",
     ": other 77 88 ; : lq 6 ; lu",
     // a later line that is blank / only a comment is still a later line
     "",
@@ -85,11 +86,11 @@ fn c10_base() -> Xstate {
 
 fn rejected_candidates(quick: bool) -> Vec<String> {
     let prefixes: Vec<&str> = if quick {
-        vec!["", "1 2", "true if", "begin", "[ 1", ": f 1", "#( 1", "#( true if", ": f #(", "3 0 do", "5 var w", "case 1 of", "^{", "late q", "7 imm", ": lq 5 ; #( lu #)", "5 var lq #( lu #)", ": lq 111 ; calllu", ": h 2 ;", "6 var v"]
+        vec!["", "1 2", "true if", "begin", "[ 1", ": f 1", "#( 1", "#( true if", ": f #(", "3 0 do", "5 var w", "case 1 of", "^{", "late q", "7 imm", ": lq 5 ; #( lu #)", "5 var lq #( lu #)", ": lq 111 ; calllu", ": h 2 ;", "6 var v", "immediate"]
     } else {
         vec![
             "", "1", "1 2", "true if", "true if 1 else", "begin", "begin true while", "[ 1", "{ 1", ": f 1", ": f local x", "#(", "#( 1", "#( true if", "#( #( 2", ": f #(", "3 0 do", "[ 1 ] foreach",
-            "5 var w", "case 1 of", "case 1 of 2 endof", "enum E", "enum E : A", "^{", "late q", "1 let z", "#( 4 const c #)", ": f 1 ; : g f", "7 imm", ": lq 5 ; #( lu #)", ": lq 5 ; lu", "5 var lq #( lu #)", "5 const lq #( lu #)", ": lq 111 ; calllu", ": h 2 ;", "6 var v", ": h 2 ; 6 var v : g h ;",
+            "5 var w", "case 1 of", "case 1 of 2 endof", "enum E", "enum E : A", "^{", "late q", "1 let z", "#( 4 const c #)", ": f 1 ; : g f", "7 imm", ": lq 5 ; #( lu #)", ": lq 5 ; lu", "5 var lq #( lu #)", "5 const lq #( lu #)", ": lq 111 ; calllu", ": h 2 ;", "6 var v", ": h 2 ; 6 var v : g h ;", "immediate",
         ]
     };
     let failing: Vec<&str> = if quick {
@@ -363,14 +364,25 @@ pub fn run(cfg: &Cfg) -> i32 {
                 for hi in r {
                     let h = &all[hi];
                     let expected_markers = h.iter().filter(|s| **s >= ng).count();
-                    for q in PROBES.iter() {
+                    for (qi, q) in PROBES.iter().enumerate() {
+                        // for the first probes, also with a file that does not exist submitted before the probe
+                        for missing_file in [false, true] {
+                        if missing_file && qi >= 4 {
+                            continue;
+                        }
                         let mut per_style: Vec<(Vec<String>, String, Vec<String>)> = vec![];
                         for st in STYLES {
                             let mut xs = base.clone();
                             let mut kinds = vec![];
                             let mut out = String::new();
                             let mut panicked = false;
-                            for s in h.iter().map(|s| sources[*s]).chain(std::iter::once(*q)).chain(std::iter::once("1 2 +")) {
+                            for s in h.iter().map(|s| sources[*s]).chain(std::iter::once("\u{2}missing-file")).chain(std::iter::once(*q)).chain(std::iter::once("1 2 +")) {
+                                if s == "\u{2}missing-file" {
+                                    if missing_file {
+                                        let _ = guarded(|| xs.compile_file("/nonexistent/xmc-c10-no-such-file.xeh".into()));
+                                    }
+                                    continue;
+                                }
                                 steps.fetch_add(1, Ordering::Relaxed);
                                 match observe(&mut xs, s, st) {
                                     Ok(o) => {
@@ -383,7 +395,7 @@ pub fn run(cfg: &Cfg) -> i32 {
                                     }
                                 }
                             }
-                            let txt = || J::A(h.iter().map(|s| js(sources[*s])).chain(std::iter::once(js(*q))).collect());
+                            let txt = || J::A(h.iter().map(|s| js(sources[*s])).chain(if missing_file { vec![js("(host) compile_file of a path that does not exist")] } else { vec![] }).chain(std::iter::once(js(*q))).collect());
                             if panicked {
                                 rep.report_w(&format!("panic:runtime-history:{:?}", st), h.len() as u64, || jo(vec![("history", txt())]));
                                 continue;
@@ -412,6 +424,7 @@ pub fn run(cfg: &Cfg) -> i32 {
                             });
                         }
                         cnt.fetch_add(1, Ordering::Relaxed);
+                        }
                     }
                 }
             }
